@@ -9,16 +9,16 @@ from .. import common as C
 from ..runner import run_given
 
 PROPERTY = 'C16'
-RULE = ("Comparisons: for two fixed-point objects of any formats with n_word<=24 (n_frac -1..n_word+1), and for an object against a plain number (either side), each of <,<=,==,!=,>,>= must return the truth "
+RULE = ("Comparisons: for two fixed-point objects of any formats with n_word<=24 (n_frac -1..n_word+1), and for an object against a plain number (either side; python or numpy scalar, 0-d array, ndarray, or the numpy comparison ufunc), each of <,<=,==,!=,>,>= must return the truth "
         "value of the same relation between the exact stored values (Fractions), elementwise for arrays; y's code is chosen as floor(value(x)*2^fy)+{-1,0,1} (neighbours across grids) or an extreme. "
         "Conversions: for every code of every format with n_word<=8, n_frac -1..n_word+1, objects created from raw codes, from floats and from ints: get_val/astype(float)/float()==code*2^-n_frac, "
         "astype(int)/int()==floor, bool() iff code!=0, raw()==code, uraw()==code mod 2^n_word. Non-trivial = values differing by <=1 LSB of the finer grid (comparisons) or a negative non-integer value (int conversions); "
         "distinct = distinct case keys.")
-ASSUMPTIONS = ['n_word<=24 so every stored value is an exact double', 'plain numbers compared against are exact doubles or python ints']
+ASSUMPTIONS = ['n_word<=24 so every stored value is an exact double', 'numbers compared against are exact doubles or integers, given as python numbers, numpy scalars, 0-d arrays or ndarrays on either side, or through the numpy comparison ufuncs']
 EXHAUSTIVE = False    # the whole quantifier is not enumerated; complete sub-domains are listed in EXHAUSTIVE_SUBDOMAINS
 EXHAUSTIVE_SUBDOMAINS = {'quick': ['conversions: every code of every format n_word<=8, n_frac -1..n_word+1, 3 creation routes; comparisons: all code pairs of all format pairs n_word<=3'],
                          'thorough': ['conversions as quick (n_word<=9); comparisons: all code pairs of all format pairs n_word<=4']}
-REQUIRED_CLASSES = {'adjacent': 2000, 'equal-across-formats': 300, 'neg-nonint': 1000, 'number-operand': 500, 'array-compare': 300}
+REQUIRED_CLASSES = {'adjacent': 2000, 'equal-across-formats': 300, 'neg-nonint': 1000, 'number-operand': 500, 'array-compare': 300, 'numpy-number:left': 300, 'numpy-number:right': 300}
 RELS = [('lt', operator.lt), ('le', operator.le), ('eq', operator.eq), ('ne', operator.ne), ('gt', operator.gt), ('ge', operator.ge)]
 
 
@@ -41,9 +41,10 @@ def check_compare(ctx, case):
         vys = [M.value_of(k, fy[2]) for k in kys]
     else:
         vys = [Fraction(int(a), int(b)) for a, b in case['nums']]
-        if kind == 'num-left':
+        if kind == 'num-left' and case.get('numtype', 'py') != 'ndarray':
             vys = vys[:1]
-    sig = 'compare/%s/%s' % (kind, 'scalar' if scalar else 'array')
+    numtype = case.get('numtype', 'py') if kind != 'fxp' else 'py'
+    sig = 'compare/%s/%s%s' % (kind, 'scalar' if scalar else 'array', '' if numtype == 'py' else '/' + numtype)
 
     def do():
         x = F(kxs[0] if scalar else np.array(kxs), fx[0], fx[1], fx[2], raw=True)
@@ -53,10 +54,23 @@ def check_compare(ctx, case):
             nums = [int(v) if v.denominator == 1 and case.get('intnum') else float(v) for v in vys]
             # a number on the left must be a plain python number (an ndarray / numpy scalar there goes through numpy's
             # ufunc machinery, which is outside the statement); on the right an array of numbers is fine
-            y = nums[0] if scalar or len(nums) == 1 or kind == 'num-left' else np.array(nums)
+            if numtype == 'ndarray':
+                y = np.array(nums)          # an ndarray of numbers, on either side
+            else:
+                y = nums[0] if scalar or len(nums) == 1 or kind == 'num-left' else np.array(nums)
+                if numtype == 'np.float64':
+                    y = np.float64(y) if not isinstance(y, np.ndarray) else y
+                elif numtype == 'np.int64' and isinstance(y, int):
+                    y = np.int64(y)
+                elif numtype == 'np-0d' and not isinstance(y, np.ndarray):
+                    y = np.array(y)
         out = {}
         for name, op in RELS:
-            out[name] = op(y, x) if kind == 'num-left' else op(x, y)
+            if numtype == 'ufunc':
+                uf = {'lt': np.less, 'le': np.less_equal, 'eq': np.equal, 'ne': np.not_equal, 'gt': np.greater, 'ge': np.greater_equal}[name]
+                out[name] = uf(y, x) if kind == 'num-left' else uf(x, y)
+            else:
+                out[name] = op(y, x) if kind == 'num-left' else op(x, y)
         return out
     ok, out = ctx.guard(case, do, sig_prefix=sig + '/')
     if not ok:
@@ -192,7 +206,7 @@ def st_compare(draw):
             d = draw(st.sampled_from([Fraction(0), M.pow2(-fx[2]), -M.pow2(-fx[2]), M.pow2(-fx[2] - 1), -M.pow2(-fx[2] - 1), Fraction(1), Fraction(-1, 4)]))
             u = v + d
             nums.append([u.numerator, u.denominator])
-        case.update(nums=nums, intnum=draw(st.booleans()))
+        case.update(nums=nums, intnum=draw(st.booleans()), numtype=draw(st.sampled_from(['py', 'py', 'np.float64', 'np.int64', 'np-0d', 'ndarray', 'ufunc'])))
     return case
 
 
@@ -211,6 +225,8 @@ def body_compare(ctx, case):
                 ctx.cls('equal-across-formats')
     else:
         ctx.cls('number-operand')
+        if case.get('numtype', 'py') != 'py':
+            ctx.cls('numpy-number:' + ('left' if case['kind'] == 'num-left' else 'right'))
         ctx.cls('adjacent')
         nt = True
     if not case['scalar']:
